@@ -39,7 +39,7 @@ type c04State struct {
 }
 
 func mkC04() *Scenario {
-	sc := &Scenario{Name: "c04", Horizon: 700}
+	sc := &Scenario{Name: "c04", Horizon: 700, HorizonIsLivelock: true}
 	st := &c04State{}
 	var arg c04Arg
 	var p1, p0 *Peer
